@@ -111,6 +111,7 @@ def strategy(tier):
         c["hint"] = draw(st.sampled_from([None, None, "hermitian", "symmetric"]))
         # documented LinSolve option dep_tol (accepted; must not change the solution)
         c["dep_tol"] = draw(st.sampled_from([None, None, 1e-12, 1e-9]))
+        c["ascale"] = draw(st.sampled_from([1.0, 1.0, 1.0, 1e-9, 1e-12, 1e6]))    # overall scale of a non-FE matrix
         if module in ("SystemOfEquations", "StaticCondensation"):
             c["give"] = draw(st.sampled_from(["both", "free", "prescribed"]))
             c["order"] = draw(st.sampled_from(["sorted", "sorted", "shuffled"]))
@@ -403,6 +404,13 @@ def check_case(case):
         else:
             A1 = _pattern_matrix(n, rng, cplx, case["density"], case["sympat"])
         A2 = None
+        # (LinSolve / Inverse only: in the partitioned modules the O(1) prescribed values and loads would no longer be
+        # commensurate with the scaled matrix, and the 1e-10 backward-error bound is then missed by a factor 2-4 on the
+        # unchanged tree -- conditioning of the problem, not the subject of this check)
+        asc = float(case.get("ascale", 1.0)) if module in ("LinSolve", "Inverse") else 1.0
+        if asc != 1.0:
+            A1 = A1 * asc           # the same system in other units: class and conditioning are scale invariant
+            labels.append(f"matrix_scale_{asc:g}")
     sym, herm = _sym_class(A1)
     cplxA = bool(np.iscomplexobj(A1))
     off = A1 - np.diag(np.diag(A1))
